@@ -7,6 +7,12 @@ Driver glue for C27.  Tokens contain no spaces; strings are over `[A-Za-z0-9._~%
   `C27 run <strict|browser> <limit> <names,…|-> <method> <uri> <hdrs> <resp> …`
        hdrs = `-` (None) / `.` (empty Headers) / `name=value,name=value`; resp = `<code>` or `<code>^<ref>^<ref>…`
      → `<method> <uri> <hdrs>;<method> <uri> <hdrs>;… => <outcome>`  (headers sorted by name)
+  `C27 multi <strict|browser> <limit> <names,…|-> <method> <uri> <hdrs> <resp> … / <method> <uri> <hdrs> <resp> … / …`
+       several requests through ONE agent object (`runMany`): the agent keeps nothing but its configuration, so
+       every request is `run` on its own, whatever the order in which the inner agent answers
+       (`TwistedProps.C27.interleaving_independent`)
+     → the `run` lines joined by ` || `
+A header value token may contain `+` (several values of one header; an opaque value list in the model).
 -/
 namespace Twisted.Drv.C27
 open Twisted.Http.Redirect
@@ -106,8 +112,42 @@ def showOutcome : Outcome → String
   | .noLocation c u => "fail:RedirectWithNoLocation:" ++ toString c ++ ":" ++ u.text
   | .pageRedirect c u => "fail:PageRedirect:" ++ toString c ++ ":" ++ u.text
 
+def decConfig (agent limit names : String) : Option Config :=
+  match limit.toNat?, decNames names with
+  | some limit, some names =>
+    match agent with
+    | "strict" => some (strict limit names)
+    | "browser" => some (browserLike limit names)
+    | _ => none
+  | _, _ => none
+
+/-- `<method> <uri> <hdrs> <resp> …` -/
+def decCall : List String → Option Call
+  | method :: uri :: hdrs :: resps =>
+    match decUri uri, decHeaders hdrs, resps.mapM decResp with
+    | some uri, some hdrs, some resps =>
+      if method = "" ∨ !okStr method then none
+      else some { method := method, uri := uri, headers := hdrs, resps := resps }
+    | _, _, _ => none
+  | _ => none
+
+/-- split a token list at the `/` tokens -/
+def splitCalls : List String → List (List String)
+  | [] => [[]]
+  | t :: ts =>
+    match splitCalls ts with
+    | [] => [[t]]
+    | g :: gs => if t = "/" then [] :: g :: gs else (t :: g) :: gs
+
+def showRun (t : List Req × Outcome) : String :=
+  ";".intercalate (t.1.map showReq) ++ " => " ++ showOutcome t.2
+
 def handle (args : List String) : String :=
   match args with
+  | "multi" :: agent :: limit :: names :: rest =>
+    match decConfig agent limit names, (splitCalls rest).mapM decCall with
+    | some cfg, some calls => " || ".intercalate ((runMany cfg calls).map showRun)
+    | _, _ => "bad-op"
   | ["join", u, r] =>
     match decUri u, decRef r with
     | some u, some r => (urljoin u r).text
